@@ -284,8 +284,11 @@ func execC18(env *sim.Env, c C18Case) CaseResult {
 				add("C18/stdout", aspect, "-print showed nothing on stdout")
 			case otherDir && iv.Dry:
 				// nothing to compare with (no file, other directory): must at least be the code of this package
-				if !bytes.HasPrefix(so, []byte("// Code generated by")) {
-					add("C18/stdout", "print-not-code", "-print output does not start with the generated-code header")
+				// (not "starts with the generated-code header": a tree may put a project's
+				// licence header above it)
+				pkgLine := []byte("package " + pkgNameOf(c.World.Files[c.World.Setup]) + "\n")
+				if !bytes.HasPrefix(so, pkgLine) && !bytes.Contains(so, append([]byte("\n"), pkgLine...)) {
+					add("C18/stdout", "print-not-code", "-print output is not code of the setup file's package")
 				}
 			case !bytes.Equal(so, code) && !bytes.Equal(so, append(append([]byte(nil), code...), '\n')):
 				add("C18/stdout", "print-differs", fmt.Sprintf("-print output differs from the code: %s", firstDiff(code, so)))
